@@ -45,6 +45,9 @@ def hx(h):
 # implementation trace -> model events
 
 
+SYNTH = {}     # counted reasons for synthesised model events (coverage)
+
+
 def to_events(case):
     """Translate the recorded implementation events into model events.
     Returns (list of (coq_term, source_index), problems)."""
@@ -53,6 +56,7 @@ def to_events(case):
     k_of_out = {}
     resp = set()
     known = set()
+    fail_recv = set()  # outgoing htlcs for which a fail was received from downstream
     fresh = set()      # circuits committed as Adds whose packet has not visibly reached anything yet
 
     def emit(t, i):
@@ -74,6 +78,8 @@ def to_events(case):
                 known.add((ch, idn))
                 emit("ELockIn %s %s %d%%N %d%%N %d%%N" %
                      (ck(ch, idn), hx(h), amt, p["amt"], p["out_chan"]), i)
+            elif kind in ("fail", "mal"):
+                fail_recv.add((ch, idn))
             elif kind == "ful":
                 k = k_of_out.get((ch, idn))
                 if k is None:
@@ -135,6 +141,16 @@ def to_events(case):
             elif op == "close" and e[4] == "":
                 k = tuple(e[3])
                 resp.add(k)
+                ok_ = tuple(e[2])
+                if ok_ in fail_recv and (ok_[0], ok_[1], "f") not in known:
+                    # A locked-in fail whose hand-over to the switch was NOT seen at the link's
+                    # ForwardPackets wrapper: the link quit between ReceiveRevocation (forwarding
+                    # package written) and processRemoteSettleFails, and after the node restart the
+                    # SWITCH itself replays the package (Switch.Start: reforwardResponses), which no
+                    # wrapper observes.  The close of the circuit is that hand-over.
+                    known.add((ok_[0], ok_[1], "f"))
+                    SYNTH["AOutFail_at_switch_start_replay"] = SYNTH.get("AOutFail_at_switch_start_replay", 0) + 1
+                    emit("ECirc %s (AOutFail %s)" % (ck(*k), ck(*ok_)), i)
                 emit("ECirc %s (AClose %s)" % (ck(*k), ck(*e[2])), i)
             elif op == "fail" and e[3] == "":
                 k = tuple(e[2])
@@ -824,6 +840,7 @@ def run(ctx):
         "model_events_total": sum(len(e) for e in evmaps),
         "faults": {c["fault"]: sum(1 for x in rows if x["fault"] == c["fault"]) for c in rows},
         "quiescent_cases": sum(1 for c in all_rows if c["quiescent"]),
+        "synthesised_model_events": dict(SYNTH),
         "stop_points": sp_coverage(all_rows),
         "partially_acked_package_replays": sum(partial_replays(c) for c in rows),
         "messages_lost_or_stale": sum(c.get("dropped", 0) for c in rows),
